@@ -305,6 +305,10 @@ def verify_function(c, registry, feas_timeout=300):
                     eng.inline.add(a[len('mir_eval.'):] if a.startswith('mir_eval.') else a)
             elif cl['kind'] == 'invariant':
                 eng.loop_invariants.setdefault(cl['kwargs'].get('loop', 0), []).append(cl)
+                for nm, kd in (cl['kwargs'].get('havoc') or {}).items() if isinstance(cl['kwargs'].get('havoc'), dict) else []:
+                    eng.havoc_kinds[nm] = kd
+            elif cl['kind'] == 'ghost':
+                eng.ghosts.setdefault(cl['kwargs'].get('after_loop', 0), []).append(cl)
         eng.inv_funcs = spec_engine(c.sidecar, c.fd, c.target, registry).spec_funcs
         raises = [cl for cl in pre if cl['kind'] == 'raises']
         # cover: the precondition is satisfiable (vacuity guard)
